@@ -63,6 +63,13 @@ def run_tool(pigeon, data, flags, timeout):
     except subprocess.TimeoutExpired:
         return "timeout", b"", ""
 
+MUST_REJECT = [r'a = "\U80000000"', r"a = 'x\Uffffffffy'", r'a = [a-\UFFFF0000]', r'a = "\ud800"', r'a = "\udfff"', r'a = "\U00110000"', r'a = "\U0000D800"',
+    r'a = [\ud800]', r'a = [\U00110000-\U00110001]', r'a = "\xZZ"', r'a = "\x1"', r'a = "\u12"', r'a = "\U0001"', r'a = "\q"', r'a = [\q]', r"a = '\"'x",
+    r'a = "\8"', r'a = [\xZ]', r'a = [\u12]', r'a = [\p{Foo}]', r'a = [\pX]', r'a = [\p{}]', r'a = [\p{Latin]', r'a = "abc', r"a = 'abc", r'a = `abc', r'a = [abc',
+    r'a = "a" { return nil, nil', r'a = "a" /* open', 'a = "a\nb"', "a = 'a\nb'", 'a = [a\nb]', r'a = "\"', 'a = "a"\\', r'a = ', r'a <- a:', r'a = !', r'a = ( "a"',
+    r'a = "a" )', r'a = x:', r'a = "a" //{', r'a = "a" //{} "b"', r'a = %{', r'a = %{}', r'= "a"', r'a "x', r'a = b:c:"d" e::f', r'a = func:"x" { return nil, nil }',
+    r'a = "a" / / "b"', r'a = "a" **', r'a = &', r'a = #', r'a = #{ return nil', r'a = &{ return true, nil']
+
 def known_c13(ctx):
     return {k["id"]: k for k in C.known_findings().get("findings", []) if k["property"] == "C13" and k.get("status") == "known"}
 
@@ -97,6 +104,11 @@ def c13(ctx, rep):
         alts = " / ".join("R%d" % j for j in range(n)) + " / 'x'"
         g = "{\npackage main\n}\n" + "".join("R%d <- %s\n" % (i, alts) for i in range(n))
         jobs.append(("stress-mutual-%d" % n, g.encode()))
+    # texts that are NOT in the documented syntax, by our reading of it (an oracle independent of the front-end's own
+    # verdict): invalid escapes in literals and classes (values beyond U+10FFFF, surrogates, short or non-hex digits, unknown
+    # letters), unknown Unicode classes, unterminated literals / classes / code blocks / comments, dangling operators
+    for b in MUST_REJECT:
+        jobs.append(("must-reject", ("{\npackage main\n}\n" + b + "\n").encode("utf-8", "surrogatepass")))
     work = []
     for kind, data in jobs:
         fl = [f for f in FLAGS if rnd.random() < 0.3]
@@ -162,6 +174,9 @@ def c13(ctx, rep):
             continue
         if rc != 0 and not err.strip():
             rep.violation("pigeon exits with status %s without a diagnostic" % rc, payload, found=True)
+        if kind == "must-reject" and rc == 0:
+            rep.violation("a grammar text outside the documented syntax is accepted (exit status 0)", payload, found=True)
+            continue
         if rc == 0:
             if hrc != 0:
                 rep.violation("a grammar the front-end rejects produces exit status 0", payload, found=True)
